@@ -1360,3 +1360,246 @@ func returnsNonNilError(fn *ssa.Function, b *ssa.BasicBlock) bool {
 	r, ok := b.Instrs[len(b.Instrs)-1].(*ssa.Return)
 	return ok && ProvablyNonNil(RetVal(r, ei), r, 0)
 }
+
+// tombstonePredicatesGroup: every predicate a read path uses to decide "this entry is not
+// live" tests the delete bit.  Tombstones decoded from a memtable or an SST have an empty but
+// non-nil value, so `Value == nil` alone does not recognise them.
+func tombstonePredicatesGroup(c *Ctx, rule string) {
+	c.Rule(rule, "sibling liveness predicates agree: kv.Entry.IsDeletedOrExpired and NoKV.isDeletedOrExpired each test Meta & kv.BitDelete; DBIterator.materialize filters through one of them before it materializes an entry")
+	bit := bitDelete(c)
+	n := 0
+	// (lsm.IsDeletedOrExpired only feeds the compaction's stale-size accounting; both of its
+	// outcomes keep the entry, so it is not a read-path predicate and is left out)
+	for _, spec := range [][2]string{{"kv", "Entry.IsDeletedOrExpired"}, {"", "isDeletedOrExpired"}} {
+		fn := c.FnOpt(spec[0], spec[1])
+		if fn == nil {
+			continue
+		}
+		n++
+		has := false
+		AllInstrs(fn, false, func(in ssa.Instruction) {
+			if bo, ok := in.(*ssa.BinOp); ok && bo.Op == token.AND {
+				if k, ok := ConstInt(bo.Y); ok && k == bit {
+					has = true
+				}
+				if k, ok := ConstInt(bo.X); ok && k == bit {
+					has = true
+				}
+			}
+		})
+		c.Decide(has, rule, key(fn, "tests:Meta&BitDelete"), fn.Pos(), 1, "the delete bit marks a tombstone", FuncName(fn)+" does not test the delete bit: a tombstone decoded from a memtable or SST (empty, non-nil value) passes as a live entry, so scans yield deleted keys that point reads report as not found")
+	}
+	c.Floor(rule, n, 2, "liveness predicates")
+	if fn := c.Fn("", "DBIterator.materialize"); fn != nil {
+		pr := Calls(fn, false, Named("kv.(*Entry).IsDeletedOrExpired", "NoKV.isDeletedOrExpired"))
+		c.Decide(len(pr) >= 1, rule, key(fn, "filters-deleted"), fn.Pos(), len(pr)+1, "materialize filters deleted/expired entries", "DBIterator.materialize no longer filters deleted/expired entries")
+	}
+}
+
+// iteratorBuffersGroup: iterator scratch buffers that are appended into (buf = append(buf[:0], …))
+// must never alias memory owned by a memtable arena or an SST block, i.e. the Value slice of an
+// entry handed out by an underlying iterator.
+func iteratorBuffersGroup(c *Ctx, rule string) {
+	c.Rule(rule, "in the root package's iterators (DBIterator, TxnIterator, Item): a field that is the destination of an in-place append (`f = append(f[:0], …)`) is never assigned the Value slice of a foreign entry (a *kv.Entry parameter or an underlying iterator's item), directly or through another field that holds such an alias")
+	type fkey = string
+	fieldKey := func(addr ssa.Value) fkey {
+		// owner type + field of the innermost field; for a field of an embedded kv.Entry
+		// the enclosing owner is part of the key (NoKV.TxnIterator.entry.Value)
+		fa, ok := addr.(*ssa.FieldAddr)
+		if !ok {
+			return ""
+		}
+		o, f, _ := FieldOf(fa)
+		if o == "kv.Entry" {
+			if outer, ok := fa.X.(*ssa.FieldAddr); ok {
+				oo, of, _ := FieldOf(outer)
+				return oo + "." + of + "." + f
+			}
+			return ""
+		}
+		return o + "." + f
+	}
+	var fns []*ssa.Function
+	for _, f := range c.P.ModFuncs {
+		if FuncPkgPath(f) != Module {
+			continue
+		}
+		n := FuncName(Root(f))
+		if strings.Contains(n, "DBIterator") || strings.Contains(n, "TxnIterator") || strings.Contains(n, "NoKV.Item)") {
+			fns = append(fns, f)
+		}
+	}
+	// foreign value: load of field Value of a kv.Entry that is a parameter / call result (not a field of the iterator)
+	isForeign := func(v ssa.Value) bool {
+		u, ok := v.(*ssa.UnOp)
+		if !ok || u.Op != token.MUL {
+			return false
+		}
+		fa, ok := u.X.(*ssa.FieldAddr)
+		if !ok {
+			return false
+		}
+		o, f, _ := FieldOf(fa)
+		if o != "kv.Entry" || f != "Value" {
+			return false
+		}
+		switch fa.X.(type) {
+		case *ssa.Parameter, *ssa.Call, *ssa.Extract:
+			return true
+		}
+		return false
+	}
+	alias := map[fkey]token.Pos{}
+	// tainted(f, v): v may be (a re-slice of) storage-owned memory.  A load of a field is
+	// resolved through the closest dominating store to that field in the same function; only
+	// when there is none does the field's global may-alias fact apply.
+	var tainted func(f *ssa.Function, v ssa.Value, depth int) bool
+	tainted = func(f *ssa.Function, v ssa.Value, depth int) bool {
+		if depth > 6 {
+			return false
+		}
+		if isForeign(v) {
+			return true
+		}
+		switch x := v.(type) {
+		case *ssa.Slice:
+			return tainted(f, x.X, depth+1)
+		case *ssa.Call:
+			if bi, ok := x.Call.Value.(*ssa.Builtin); ok && bi.Name() == "append" {
+				return tainted(f, x.Call.Args[0], depth+1)
+			}
+		case *ssa.Phi:
+			for _, e := range x.Edges {
+				if tainted(f, e, depth+1) {
+					return true
+				}
+			}
+		case *ssa.UnOp:
+			if x.Op != token.MUL {
+				return false
+			}
+			k := fieldKey(x.X)
+			if k == "" {
+				return false
+			}
+			var closest *ssa.Store
+			AllInstrs(f, false, func(in ssa.Instruction) {
+				st, ok := in.(*ssa.Store)
+				if !ok || fieldKey(st.Addr) != k || !Dominates(st, x) {
+					return
+				}
+				if closest == nil || Dominates(closest, st) {
+					closest = st
+				}
+			})
+			if closest != nil {
+				return tainted(f, closest.Val, depth+1)
+			}
+			_, g := alias[k]
+			return g
+		}
+		return false
+	}
+	changed := true
+	for changed {
+		changed = false
+		for _, f := range fns {
+			AllInstrs(f, false, func(in ssa.Instruction) {
+				st, ok := in.(*ssa.Store)
+				if !ok {
+					return
+				}
+				k := fieldKey(st.Addr)
+				if k == "" {
+					return
+				}
+				if _, done := alias[k]; done {
+					return
+				}
+				if tainted(f, st.Val, 0) {
+					alias[k] = st.Pos()
+					changed = true
+				}
+			})
+		}
+	}
+	sinks := 0
+	for _, f := range fns {
+		AllInstrs(f, false, func(in ssa.Instruction) {
+			call, ok := in.(*ssa.Call)
+			if !ok {
+				return
+			}
+			bi, ok := call.Call.Value.(*ssa.Builtin)
+			if !ok || bi.Name() != "append" {
+				return
+			}
+			sl, ok := call.Call.Args[0].(*ssa.Slice)
+			if !ok {
+				return
+			}
+			if h, ok := ConstInt(sl.High); !ok || h != 0 {
+				return
+			}
+			u, ok := sl.X.(*ssa.UnOp)
+			if !ok || u.Op != token.MUL {
+				return
+			}
+			k := fieldKey(u.X)
+			if k == "" {
+				return
+			}
+			sinks++
+			bad := tainted(f, u, 0)
+			pos := alias[k]
+			c.Decide(!bad, rule, key(f, fmt.Sprintf("append-into:%s@%d", k, ordinalIn(f, call))), call.Pos(), len(alias)+1, "the buffer appended into is owned by the iterator", fmt.Sprintf("`%s` is appended into in place, but it can alias the Value of an entry owned by a memtable arena or SST block (assigned at %s): the append overwrites stored entries (keys change under the scan, value pointers become garbage)", k, c.P.Pos(pos)))
+		})
+	}
+	c.Floor(rule, sinks, 3, "in-place append sites in the iterators")
+}
+
+// concatPinGroup: a ConcatIterator references the tables it may visit for its whole lifetime.
+func concatPinGroup(c *Ctx, rule string) {
+	c.Rule(rule, "lsm.NewConcatIterator takes a reference (table.IncrRef) on every table it is given, in a loop over its own copy of the slice, and ConcatIterator.Close releases them (table.DecrRef / decrRefs): per-table iterators are opened lazily, so without the reference a compaction that completes in between deletes files the iterator has yet to visit")
+	if fn := c.Fn("lsm", "NewConcatIterator"); fn != nil {
+		inc := Calls(fn, false, Named("lsm.(*table).IncrRef"))
+		inLoop := false
+		for _, i := range inc {
+			if blockInLoop(i.Block()) {
+				inLoop = true
+			}
+		}
+		c.Decide(inLoop, rule, key(fn, "pins-every-table"), fn.Pos(), len(inc)+1, "every table is referenced at creation", "NewConcatIterator does not reference its tables: an iterator created before a compaction finds the level's files deleted and yields nothing for that level")
+	}
+	if fn := c.Fn("lsm", "ConcatIterator.Close"); fn != nil {
+		dec := Calls(fn, false, deepMatcher(Named("lsm.(*table).DecrRef"), Module+"/lsm", 2))
+		c.Decide(len(dec) >= 1, rule, key(fn, "releases-tables"), fn.Pos(), len(dec)+1, "references are released on Close", "ConcatIterator.Close does not release the table references taken at creation (tables of closed iterators are never deleted)")
+	}
+}
+
+// reverseDedupGroup: a reverse scan meets the versions of one user key oldest first (internal
+// keys sort user key ascending, version descending), so keeping the first version seen per user
+// key — correct for forward scans — returns the OLDEST visible version in reverse.
+func reverseDedupGroup(c *Ctx, rule string) {
+	c.Rule(rule, "TxnIterator.advance de-duplicates versions by remembering the last user key and skipping later entries with the same user key; in reverse mode that keeps the oldest visible version, so the de-duplication must be direction-aware (look ahead to the last entry of the same user key, or otherwise consult opt.Reverse on the path that records lastKey)")
+	fn := c.Fn("", "TxnIterator.advance")
+	if fn == nil {
+		return
+	}
+	st := fieldStoresIn(fn, false, "NoKV.TxnIterator", "lastKey")
+	aware := false
+	for _, b := range fn.Blocks {
+		ifi := ifOf(b)
+		if ifi == nil {
+			continue
+		}
+		if isFieldLoad(ifi.Cond, "NoKV.IteratorOptions", "Reverse") {
+			for _, s := range st {
+				if b.Dominates(s.Block()) {
+					aware = true
+				}
+			}
+		}
+	}
+	c.Decide(aware && len(st) > 0, rule, key(fn, "lastKey-dedup#direction-aware"), fn.Pos(), len(st)+1, "version de-duplication depends on the scan direction", "TxnIterator.advance keeps the first version it meets for a user key in both directions: a reverse scan returns the oldest visible version of every key and resurrects keys whose newest version is a tombstone")
+}
